@@ -12,10 +12,10 @@ import vf
 # ------------------------------------------------------------------------------------------------- source fingerprints
 # normalised-text hashes of the passages as transcribed in spec/PkgDiff.tla
 TRANSCRIBED = {
-    "compare_prepared_userspace_packages": "09597973ef171c5f",      # StatusOverwrite: `status = notifier.status;`
+    "compare_prepared_userspace_packages": "89838d99064d7eb1",      # StatusOverwrite: `status = notifier.status;`
     "convert_path_to_unique_suffix": "fa213565f7156cc9",            # Key: suffix after the package's common prefix
     "load_elf_file_paths": "486169785d480fb2",                      # PrefixOfSet: sorted_strings_common_prefix of the package's ELF paths
-    "create_maps_of_package_content": "249b0eaf5581b2d4",           # MapPackages: which key is used
+    "create_maps_of_package_content": "5b189639652aab18",           # MapPackages: which key is used
 }
 
 
@@ -50,6 +50,10 @@ def fingerprints(repo=None):
         t = _passage(src, fn)
         if not t:
             vf.infra("cannot find %s in tools/abipkgdiff.cc" % fn)
+        if fn == "compare_prepared_userspace_packages":     # only the statements about the status
+            t = "\n".join(l for l in t.splitlines() if re.search(r"\bstatus\b", l))
+        if fn == "create_maps_of_package_content":          # only the statements that derive the keys (the function does much else)
+            t = "\n".join(l for l in t.splitlines() if re.search(r"convert_path_to_|load_elf_file_paths|common_paths_prefix|path_elf_file_sptr_map", l))
         hs[fn] = hashlib.sha256(_norm(t).encode()).hexdigest()[:16]
         st[fn] = "transcribed" if hs[fn] == h else "changed"
     keys = ("convert_path_to_unique_suffix", "load_elf_file_paths", "create_maps_of_package_content")
